@@ -245,7 +245,7 @@ func (it *Interp) noteFunc(fn *ssa.Function) {
 func (it *Interp) callSSA(fn *ssa.Function, args []Value, env []Value) Value {
 	it.depth++
 	if it.depth > it.MaxDepth {
-		panic(boundHit{"call depth"})
+		panic(boundHit{"call depth at " + it.where()})
 	}
 	defer func() { it.depth-- }()
 	fr := &frame{it: it, fn: fn, env: make(map[ssa.Value]Value, 16)}
@@ -329,7 +329,7 @@ func (it *Interp) runFrame(fr *frame) {
 		for ; i < len(blk.Instrs); i++ {
 			it.steps++
 			if it.steps > it.MaxSteps {
-				panic(boundHit{"instruction budget"})
+				panic(boundHit{"instruction budget at " + it.where()})
 			}
 			instr := blk.Instrs[i]
 			fr.curInstr = instr
